@@ -305,6 +305,13 @@ theorem loop_cfi {p : Compiler.Program} (h : WF p) (gas : Nat) (B : List Frame) 
 theorem call_cfi {p : Compiler.Program} (h : WF p) (gas : Nat) (f : Val) (s : VmState) (hg : GoodFrames p s) :
     ExecPost (fun fs' => s.frames <+: fs' ∧ Good (Start p) fs') Allowed
       (exec (Prog.ofProgram p) gas (.call f) s) :=
+  (exec_cfi (E := Allowed) _ (wf_cfi h).1 gas).2.prefix f s hg
+
+/-- (after the repair of `run_function`, which pops the call stack back to its entry depth) the
+    sharper form: `run_function` returns with exactly the call stack it was called on -/
+theorem call_cfi_eq {p : Compiler.Program} (h : WF p) (gas : Nat) (f : Val) (s : VmState) (hg : GoodFrames p s) :
+    ExecPost (fun fs' => fs' = s.frames ∧ Good (Start p) fs') Allowed
+      (exec (Prog.ofProgram p) gas (.call f) s) :=
   (exec_cfi (E := Allowed) _ (wf_cfi h).1 gas).2 f s hg
 
 /-- **`frames_nonempty`** for `run`: the loop `run` starts ends with a non-empty call stack (which
